@@ -130,7 +130,10 @@ cfg_not_wasm32! {
     {
         pub fn spawn(self) -> (JoinHandle<()>, oneshot::Receiver<Result<(), Error>>) {
             let (tx, rx) = oneshot::channel();
+            #[cfg(not(fe2o3_amqp_verif))]
             let handle = tokio::spawn(self.event_loop(tx));
+            #[cfg(fe2o3_amqp_verif)]
+            let handle = crate::verif::spawn("session-engine", self.event_loop(tx));
             (handle, rx)
         }
     }
